@@ -6,7 +6,7 @@ in journal order), every failing line with its error class, the failure of the e
 the exit status are compared.
 Oracle: python datetime arithmetic written from the property text (per-account matching of check-ins
 and check-outs, elapsed seconds, the calendar days a session touches, per-account sums)."""
-import re, time
+import os, re, time
 from datetime import datetime, timedelta, date
 import lib
 
@@ -14,25 +14,26 @@ META = dict(
     id='C20',
     level='proof',
     technique='Coq proof (time-clock state machine: session matching, exact elapsed seconds, telescoping day-break pieces, error cases, refinement to a per-account matching specification) + differential correspondence of the extracted model against ledger',
-    level_text='Theorems in coq/Properties/Properties_C20.v state, for all event sequences and all timestamps, that the model of time_log_t (clock_in, clock_out, clock_out_from_timelog, the --day-break loop, close) posts for each closed session exactly t_out - t_in seconds on the check-in day to the check-in account; that under --day-break the pieces are the non-empty intersections of the session with the calendar days it touches (contiguous, boundaries at midnights, consecutive dates, telescoping to t_out - t_in, no empty piece for a check-out at midnight); that an account total is the sum of its sessions with or without --day-break; and that a line fails exactly in the three stated cases. The model is tied to the code by running thousands of generated time-clock files (1-60 events, 1-4 accounts, midnights, month ends, leap days, interleaved sessions, every malformed kind) through freshly built ledger and the extracted model and comparing every register row, error line, error class and exit status.',
-    level_note='Trusted: Coq kernel; extraction + OCaml driver and the python harness for the correspondence; boost ptime/gregorian arithmetic is modelled as integer seconds with day = t div 86400 (validated against python datetime by the correspondence); the fixed-column reading of i/o lines (textual.cc:467-523) is glue: a line that ends after the timestamp is a check-in to the account named "" or a check-out with no account (NULL).',
+    level_text='Theorems in coq/Properties/Properties_C20.v state, for all event sequences and all timestamps, that the model of time_log_t (clock_in, clock_out, clock_out_from_timelog, the --day-break loop, close) posts for each closed session exactly t_out - t_in seconds on the check-in day to the check-in account; that under --day-break the pieces are the non-empty intersections of the session with the calendar days it touches (contiguous, boundaries at midnights, consecutive dates, telescoping to t_out - t_in, no empty piece for a check-out at midnight); that an account total is the sum of its sessions with or without --day-break; and that a line fails exactly in the three stated cases. The model is tied to the code by running thousands of generated time-clock files (1-60 events, 1-4 accounts, midnights, month ends, leap days, interleaved sessions, every malformed kind; bare or inside apply account blocks - nested, around only some of the lines -, under --master-account, with included time-clock files, apply tag / apply year / year / alias directives) through freshly built ledger and the extracted model and comparing every register row, error line, error class and exit status.',
+    level_note='Trusted: Coq kernel; extraction + OCaml driver and the python harness for the correspondence; boost ptime/gregorian arithmetic is modelled as integer seconds with day = t div 86400 (validated against python datetime by the correspondence); the fixed-column reading of i/o lines (textual.cc:467-523) is glue: a line that ends after the timestamp is a check-in to the account named "" or a check-out with no account (NULL); the harness joins master account, enclosing apply account arguments and the written name into the full name the model receives, and a regenerated table (Gen/ClockAccount.v, theorem clock_lines_resolve_alike) checks that both directives resolve the name with top_account(); an included file is a journal of its own (own time_log_t) whose rows the harness splices in at the include line.',
     design_ref='DESIGN.md section 7 C20',
     assumptions=['timestamps are well-formed `YYYY/MM/DD HH:MM:SS` between 1990 and 2060',
                  'account names and descriptions are plain words (no double spaces, tabs, `;` or `|`)',
-                 '--now is given (a date: the close of still-open sessions happens at its midnight)',
+                 '--now is given (a date: the close of still-open sessions happens at its midnight, or at 31 December of a year / apply year directive in force at the end of the file)',
+                 'alias directives are not applied to time-clock lines (observed, F110); at most one unclosed `year` directive per file, at its top',
                  'a check-out naming an account that is not open while exactly one other account is open closes that account (F12): observed and modelled, not judged by the oracle'],
 )
 
 EPOCH = datetime(1970, 1, 1)
 DAY = 86400
-ACCOUNTS = ['Work:A', 'Work:A:Sub', 'Proj:Beta', 'Home', 'Work:B', 'X']
+ACCOUNTS = ['Work:A', 'Work:A:Sub', 'Proj:Beta', 'Home', 'Work:B', 'X', 'Proj:Deep:Gamma', 'X:Y:Z']
 PAYEES = ['', '', 'meeting', 'code review', 'ACME corp', 'x']
 ANCHORS = [datetime(2020, 2, 28, 20, 0, 0), datetime(2020, 2, 29, 23, 59, 0), datetime(2019, 12, 31, 22, 30, 0),
            datetime(2021, 2, 28, 21, 0, 0), datetime(2020, 4, 30, 23, 0, 0), datetime(2024, 2, 28, 23, 59, 58),
            datetime(2021, 1, 31, 12, 0, 0), datetime(2000, 2, 28, 23, 0, 0), datetime(2020, 3, 1, 0, 0, 0),
            datetime(2020, 12, 31, 23, 59, 59)]
 FMT = ('%(date)|%(account)|%(verif_rational(amount))|%(payee)|%(code)|%(cleared)|%(checkin)|%(checkout)'
-       '|%(beg_line)|%(virtual)\\n')
+       '|%(beg_line)|%(virtual)|%(filename)\\n')
 
 
 def secs(dt):
@@ -65,12 +66,12 @@ def gap(rng, t):
     return rng.choice([1, DAY - 1, DAY, DAY + 1, 2 * DAY])
 
 
-def gen_case(rng, malformed=None):
+def gen_case(rng, malformed=None, small=False):
     """-> dict(events=[...], now=seconds).  An event: kind i/o, t, cap, acct (None = the line names
     no account: a check-in then goes to the account named "", a check-out passes NULL), desc."""
     nacc = rng.choice([1, 1, 2, 2, 3, 4])
     accts = rng.sample(ACCOUNTS, nacc)
-    n = rng.choice([1, 2, 2, 3, 4, 5, 6, 8, 10, 12, 16, 20, 30, 45, 60])
+    n = rng.choice([1, 2, 2, 3, 4, 5, 6, 8, 10, 12, 16, 20, 30, 45, 60]) if not small else rng.choice([1, 2, 2, 3, 4, 6, 9])
     style = rng.choice(['classic', 'named', 'named', 'mixed'])
     if malformed is None:
         pmal = 0.0
@@ -191,34 +192,227 @@ def gen_directed(rng):
     return dict(events=evs, now=now)
 
 
-# ---- rendering ----------------------------------------------------------------------------------
-def render(case):
-    """-> (text, line number of each event)"""
-    lines, at = [], []
-    for e in case['events']:
-        c = e['kind'].upper() if e['cap'] else e['kind']
-        s = '%s %s' % (c, stamp(e['t']))
-        if e['acct'] is not None:
-            s += ' ' + e['acct']
-            if e['desc']:
-                s += '  ' + e['desc']
-        lines.append(s)
-        at.append(len(lines))
-    return '\n'.join(lines) + '\n', at
+# ---- layout: the directives around the time-clock lines ---------------------------------------------
+# A file is a list of line records.  `ev` lines carry the event; its `acct` is the FULL account the
+# line is meant to name below the master account, `written` is what is spelled on the line: the
+# enclosing `apply account` blocks supply the rest.  An include line carries the child file (a list
+# of line records of its own: an included file is parsed by its own instance_t, with its own
+# time_log_t, under the account that is current at the include line).
+MASTERS = ['Top', 'Org:Unit']
+TAGS = ['billable', 'team: blue']
+ALIAS_LINES = ['alias W=Work:A', 'alias Work:B=Elsewhere:B', 'alias Home=Proj:Beta', 'alias A=Work:A', 'alias Sub=X']
 
 
-def to_model(case):
-    """the events as clock_in_directive / clock_out_directive hand them over (textual.cc:467-529): a
-    line that ends after the timestamp is a check-in to the account named "" or a check-out whose
-    account is NULL"""
-    evs = []
-    for e in case['events']:
-        if e['acct'] is None:
-            acct = b'' if e['kind'] == 'i' else 'none'
+def enclosures(name):
+    """the `apply account` nestings under which a shorter spelling means `name`"""
+    comps = name.split(':')
+    out = [()]
+    for j in range(1, len(comps)):
+        headc = comps[:j]
+        out.append((':'.join(headc),))
+        if j >= 2:
+            out.append(tuple(headc))
+            out.append((headc[0], ':'.join(headc[1:])))
+    return sorted(set(out))
+
+
+def fits(ctx, name):
+    pre = ':'.join(ctx)
+    return name is None or not pre or name.startswith(pre + ':')
+
+
+def lay_out(rng, events, fancy, children=(), yeardir=None):
+    """events -> line records.  fancy = 0: bare lines only; 1: apply account blocks; 2: also noise
+    (apply tag / apply year blocks, alias, comments).  children: [(position, child lines)]."""
+    lines = []
+    stack = []                    # ('account', arg) | ('tag', t) | ('year', y) | ('yeardir', y)
+
+    def ctx_now():
+        return tuple(a for k, a in stack if k == 'account')
+
+    def pop():
+        k, a = stack.pop()
+        label = {'account': 'account', 'tag': 'tag', 'year': 'year'}[k]
+        lines.append(dict(k='end', text=rng.choice(['end apply ' + label] * 4 + ['end apply', 'end'])))
+
+    def goto(ctx):
+        while ctx_now() != ctx[:len(ctx_now())]:
+            pop()
+        for a in ctx[len(ctx_now()):]:
+            stack.append(('account', a))
+            lines.append(dict(k='apply-account', arg=a, text='apply account ' + a))
+
+    if yeardir is not None:
+        stack.append(('yeardir', yeardir))
+        lines.append(dict(k='year', y=yeardir, text=rng.choice(['year %d', 'Y %d', 'Y%d']) % yeardir))
+    pending = sorted(children, key=lambda c: c[0])
+    for i, e in enumerate(events + [None]):
+        while pending and pending[0][0] <= i:
+            _, child = pending.pop(0)
+            if fancy and rng.random() < 0.6:
+                goto(rng.choice([(), ('Proj',), ('Inc', 'Deep'), ('Work:A',)]))
+            lines.append(dict(k='include', child=child))
+        if e is None:
+            break
+        if fancy >= 2 and rng.random() < 0.15:
+            r = rng.random()
+            if r < 0.3:
+                lines.append(dict(k='alias', text=rng.choice(ALIAS_LINES)))
+            elif r < 0.45:
+                lines.append(dict(k='comment', text='; ' + rng.choice(['note', 'i 2020/01/01 00:00:00 Not:A:Line'])))
+            elif r < 0.7:
+                t = rng.choice(TAGS)
+                stack.append(('tag', t))
+                lines.append(dict(k='apply-tag', text='apply tag ' + t))
+            elif r < 0.8:
+                y = rng.choice([1990, 2019, 2030, 2055])
+                stack.append(('year', y))
+                lines.append(dict(k='apply-year', y=y, text='apply year %d' % y))
+            elif stack and stack[-1][0] in ('tag', 'year'):
+                pop()
+        name = e['acct']
+        if not fancy or (name is None and rng.random() < 0.8):
+            want = ()
+        elif fits(ctx_now(), name) and (name is None or len(':'.join(ctx_now())) < len(name)) and rng.random() < 0.55:
+            want = ctx_now()
         else:
-            acct = e['acct'].encode()
-        evs.append([e['kind'], e['t'], e['cap'], acct, e['desc'].encode()])
-    return evs
+            want = rng.choice(enclosures(name)) if name is not None else rng.choice([(), ('Proj',), ('Work', 'A')])
+        goto(want)
+        pre = ':'.join(want)
+        e['written'] = None if name is None else (name[len(pre) + 1:] if pre else name)
+        lines.append(dict(k='ev', e=e))
+    if rng.random() < 0.8:
+        while stack and stack[-1][0] != 'yeardir':
+            pop()
+    return lines
+
+
+def event_text(e):
+    c = e['kind'].upper() if e['cap'] else e['kind']
+    s = '%s %s' % (c, stamp(e['t']))
+    w = e.get('written', e['acct'])
+    if w is not None:
+        s += ' ' + w
+        if e['desc']:
+            s += '  ' + e['desc']
+    return s
+
+
+def render(case):
+    """-> {file name: text}, main file name.  Children are numbered in the order of their include lines."""
+    files = {}
+    counter = [0]
+
+    def one(lines, name):
+        out = []
+        for l in lines:
+            if l['k'] == 'ev':
+                out.append(event_text(l['e']))
+            elif l['k'] == 'include':
+                cname = 'tlinc%d.dat' % counter[0]
+                counter[0] += 1
+                l['file'] = cname
+                one(l['child'], cname)
+                out.append('include ' + cname)
+            else:
+                out.append(l['text'])
+        files[name] = '\n'.join(out) + '\n'
+    one(case['lines'], 'tl.dat')
+    return files, 'tl.dat'
+
+
+def year_end(y):
+    return secs(datetime(y, 12, 31))
+
+
+def resolve(case):
+    """The glue of textual.cc around clock_in / clock_out, from the line records: the account of a line is
+    top_account()->find_account(text) - the master account (--master-account, or for an included file the
+    account current at the include line), the enclosing `apply account` arguments and the written name,
+    joined by `:`; a bare check-in names "" below that, a bare check-out passes NULL.  The time at which
+    a file's open sessions are closed is CURRENT_TIME() at its end: --now, unless a `year`/`apply year`
+    directive is in force there (it sets `epoch`; the entry on top of the apply stack is undone at the
+    end of a file, textual.cc:302-305).
+    -> list of instances in include order: dict(id, file, evs (model events), now, at (line of each event),
+       incs [(events before the include, line, child id)])"""
+    insts = []
+    state = dict(epoch=case['now'])
+
+    def join(pre, w):
+        return (pre + ':' + w) if pre else w
+
+    def one(lines, fname, master, iid):
+        inst = dict(id=iid, file=fname, evs=[], at=[], incs=[], now=None)
+        insts.append(inst)
+        stack = [('account', master)]
+        ln = 0
+        for l in lines:
+            ln += 1
+            k = l['k']
+            top = [a for kk, a in stack if kk == 'account'][-1]
+            if k == 'apply-account':
+                stack.append(('account', join(top, l['arg'])))
+            elif k == 'apply-tag':
+                stack.append(('tag', None))
+            elif k in ('apply-year', 'year'):
+                stack.append(('year', state['epoch']))
+                state['epoch'] = year_end(l['y'])
+            elif k == 'end':
+                kk, a = stack.pop()
+                if kk == 'year':
+                    state['epoch'] = a
+            elif k == 'include':
+                cid = 'c%d' % sum(1 for x in insts if x['id'] != 'p')
+                inst['incs'].append((len(inst['evs']), ln, cid))
+                one(l['child'], l['file'], top, cid)
+            elif k == 'ev':
+                e = l['e']
+                w = e.get('written', e['acct'])
+                if w is None:
+                    acct = join(top, '').encode() if e['kind'] == 'i' else 'none'
+                    if e['kind'] == 'i' and top:
+                        acct = (top + ':').encode()
+                else:
+                    acct = join(top, w).encode()
+                inst['evs'].append([e['kind'], e['t'], e['cap'], acct, e['desc'].encode()])
+                inst['at'].append(ln)
+        if stack[-1][0] == 'year':
+            state['epoch'] = stack[-1][1]
+        inst['now'] = state['epoch']
+    one(case['lines'], 'tl.dat', case.get('master') or '', 'p')
+    return insts
+
+
+def expected(insts, outs):
+    """compose the model's per-instance results into the canonical line of the whole run"""
+    res = {i['id']: o for i, o in zip(insts, outs)}
+    parent = insts[0]
+    if any(o.startswith('E') for o in outs):
+        labels, pclose = [], '-'
+        for i in insts:
+            o = res[i['id']]
+            if not o.startswith('E'):
+                continue
+            body, close = o[2:].split(';close:')
+            for it in (body.split(',') if body else []):
+                labels.append(it if i['id'] == 'p' else '%s.%s' % (i['id'], it))
+            if close != '-':
+                if i['id'] == 'p':
+                    pclose = close
+                else:
+                    labels.append('inc-%s:%s' % (i['id'], close))
+        return 'E %s;close:%s' % (','.join(sorted(labels)), pclose)
+    rows = []
+    prow = [x.split('|', 1) for x in res['p'][2:].split(';')] if len(res['p']) > 2 else []
+    incs = list(parent['incs'])
+    for idx, rest in prow:
+        while incs and incs[0][0] <= int(idx):
+            cid = incs.pop(0)[2]
+            rows += [x.split('|', 1)[1] for x in res[cid][2:].split(';')] if len(res[cid]) > 2 else []
+        rows.append(rest)
+    for _, _, cid in incs:
+        rows += [x.split('|', 1)[1] for x in res[cid][2:].split(';')] if len(res[cid]) > 2 else []
+    return 'R ' + ';'.join(rows)
 
 
 # ---- the implementation --------------------------------------------------------------------------
@@ -234,40 +428,47 @@ def classify(msg):
     return 'Other(%s)' % msg[:60]
 
 
-def run_impl(path, now, db):
+def run_impl(path, now, db, master=None):
     args = ['-f', path, 'reg', '--empty', '--now', (EPOCH + timedelta(seconds=now)).strftime('%Y/%m/%d'), '--format', FMT]
     if db:
         args.append('--day-break')
+    if master:
+        args += ['--master-account', master]
     for attempt in range(5):
         try:
             st, out, err = lib.run_ledger(args, timeout=10)
-            break
         except OSError:          # the binary is being re-linked by a concurrent build
             if attempt == 4:
                 raise
             time.sleep(2)
+            continue
+        if isinstance(st, int) and st > 0 and b'Error' not in err and attempt < 4:
+            time.sleep(2)        # no ledger message at all (the loader failed on a library being replaced): once more
+            continue
+        break
     rows = []
     for l in out.decode('utf-8', 'replace').split('\n'):
         if not l:
             continue
         f = l.split('|')
-        if len(f) != 10:
+        if len(f) != 11:
             rows.append(dict(bad=l))
             continue
         m = re.fullmatch(r'A:73:(-?\d+)/(\d+):\d+:[01]', f[2])
         rows.append(dict(date=f[0], acct=f[1], secs=(int(m.group(1)) if m and m.group(2) == '1' else None), amount=f[2],
-                         payee=f[3], code=f[4], cleared=f[5], cin=f[6], cout=f[7], line=f[8], virtual=f[9]))
+                         payee=f[3], code=f[4], cleared=f[5], cin=f[6], cout=f[7], line=f[8], virtual=f[9],
+                         file=os.path.basename(f[10])))
     errs, close_err = [], None
     pending = None
     for l in err.decode('utf-8', 'replace').split('\n'):
-        m = re.match(r'While parsing file "[^"]*", line (\d+):', l)
+        m = re.match(r'While parsing file "([^"]*)", line (\d+):', l)
         if m:
-            pending = int(m.group(1))
+            pending = (os.path.basename(m.group(1)), int(m.group(2)))
         elif l.startswith('Error: '):
             if pending is None:
                 close_err = classify(l[7:])
             else:
-                errs.append((pending, classify(l[7:])))
+                errs.append((pending[0], pending[1], classify(l[7:])))
             pending = None
     return dict(status=st, rows=rows, errs=errs, close=close_err)
 
@@ -276,16 +477,21 @@ def hexs(s):
     return s.encode().hex() if s else '-'
 
 
-def impl_canon(r, at):
-    """the same line the model driver prints"""
+def impl_canon(r, insts):
+    """the same line `expected` builds from the model"""
     if r['status'] != 0 or r['errs'] or r['close']:
-        idx = {ln: i for i, ln in enumerate(at)}
-        es = ','.join('%s:%s' % (idx.get(ln, 'L%d' % ln), c) for ln, c in r['errs'])
+        where = {}
+        for i in insts:
+            for k, ln in enumerate(i['at']):
+                where[(i['file'], ln)] = ('%d' % k) if i['id'] == 'p' else '%s.%d' % (i['id'], k)
+            for _, ln, cid in i['incs']:
+                where[(i['file'], ln)] = 'inc-' + cid
+        labels = sorted('%s:%s' % (where.get((f, ln), '%s@%d' % (f, ln)), c) for f, ln, c in r['errs'])
         extra = '' if not r['rows'] else ';partial-report(%d rows)' % len(r['rows'])
         want_status = 1 if r['close'] else min(len(r['errs']), 255)
         if r['status'] != want_status:
             extra += ';status=%s' % (r['status'],)
-        return 'E %s;close:%s%s' % (es, r['close'] or '-', extra)
+        return 'E %s;close:%s%s' % (','.join(labels), r['close'] or '-', extra)
     out = []
     for w in r['rows']:
         if 'bad' in w or w['secs'] is None:
@@ -305,27 +511,82 @@ def impl_canon(r, at):
 
 
 # ---- oracle: the property text on what ledger printed ----------------------------------------------
-def oracle(case, at, r, db):
+EV_RE = re.compile(r'([ioIO]) (\d{4}/\d\d/\d\d \d\d:\d\d:\d\d)(?: (.*?))?(?:  (.*))?$')
+
+
+def read_files(files, main, master):
+    """The journal text as a reader of the manual understands it -> tokens in reading order:
+    ('begin', file) / ('end', file) around each file, ('ev', file, line, kind, when, full account name).
+    The full name of the account a line names: the master account, the arguments of the enclosing
+    `apply account` blocks (an included file starts under the account current at its include line) and
+    the name written on the line, joined by `:`.  None = the line names no account."""
+    toks = []
+    has_year = [False]
+
+    def join(pre, w):
+        return (pre + ':' + w) if pre else w
+
+    def walk(fname, pre0):
+        toks.append(('begin', fname))
+        blocks = []                # one entry per open `apply`: the account prefix inside it
+        for ln, line in enumerate(files[fname].split('\n')[:-1], 1):
+            pre = blocks[-1] if blocks else pre0
+            m = EV_RE.match(line)
+            if m:
+                when = datetime.strptime(m.group(2), '%Y/%m/%d %H:%M:%S')
+                w = m.group(3)
+                if w is None:
+                    full = (pre + ':' if pre else '') if m.group(1) in 'iI' else None
+                else:
+                    full = join(pre, w)
+                toks.append(('ev', fname, ln, m.group(1).lower(), when, full))
+            elif line.startswith('apply account '):
+                blocks.append(join(pre, line[len('apply account '):].strip()))
+            elif line.startswith('apply '):
+                blocks.append(pre)
+                has_year[0] = has_year[0] or line.startswith('apply year')
+            elif line == 'end' or line.startswith('end '):
+                if blocks:
+                    blocks.pop()
+            elif line.startswith('include '):
+                walk(line[len('include '):].strip(), pre)
+            elif line.startswith('year ') or line.startswith('Y'):
+                has_year[0] = True
+        toks.append(('end', fname))
+    walk(main, master or '')
+    return toks, has_year[0]
+
+
+def oracle(files, main, master, now_s, r, db):
     """-> (list of (key, desc, observed, required), list of notes).  Written from the statement:
-    per account, a check-in is matched by the next check-out for that account (a check-out line that
-    names no account belongs to the only open check-in); sessions, dates and days by datetime."""
+    per full account name, a check-in is matched by the next check-out for that account in the same file
+    (a check-out line that names no account belongs to the only open check-in); sessions, dates and
+    days by datetime; the time reported for a full account is the sum of its sessions."""
     viol, notes = [], []
-    opened = {}           # account -> (datetime of check-in, line)
-    sessions = []         # (account, t_in, t_out, check-in line)
-    first_error = None    # (line, kind) the statement requires
-    for e, ln in zip(case['events'], at):
-        when = EPOCH + timedelta(seconds=e['t'])
-        if e['kind'] == 'i':
-            name = e['acct'] if e['acct'] is not None else ''     # no account on the line: the account named ""
-            if name in opened:
-                first_error = (ln, 'second check-in to an open account')
-                break
-            opened[name] = (when, ln)
+    toks, has_year = read_files(files, main, master)
+    opened_stack = []
+    sessions = []         # (account, t_in, t_out, file, check-in line)
+    still = []            # (account, t_in, file, line)
+    first_error = None
+    for tk in toks:
+        if tk[0] == 'begin':
+            opened_stack.append({})
             continue
-        a = e['acct']
+        if tk[0] == 'end':
+            for a, (tin, f, l) in opened_stack.pop().items():
+                still.append((a, tin, f, l))
+            continue
+        _, f, ln, kind, when, a = tk
+        opened = opened_stack[-1]
+        if kind == 'i':
+            if a in opened:
+                first_error = (f, ln, 'second check-in to an open account')
+                break
+            opened[a] = (when, f, ln)
+            continue
         if a is None:
             if not opened:
-                first_error = (ln, 'check-out with no open check-in')
+                first_error = (f, ln, 'check-out with no open check-in')
                 break
             if len(opened) > 1:
                 notes.append('a check-out naming no account while several accounts are open: the statement does not say which session it ends (ledger: "checking out requires an account")')
@@ -335,34 +596,35 @@ def oracle(case, at, r, db):
             if len(opened) == 1:
                 notes.append('F12 form: a check-out naming an account that is not open while exactly one other account is open (ledger ends that session)')
                 return viol, notes
-            first_error = (ln, 'check-out with no open check-in')
+            first_error = (f, ln, 'check-out with no open check-in')
             break
-        tin, lin = opened.pop(a)
+        tin, fi, lin = opened.pop(a)
         if when < tin:
-            first_error = (ln, 'check-out earlier than its check-in')
+            first_error = (f, ln, 'check-out earlier than its check-in')
             break
-        sessions.append((a, tin, when, lin))
+        sessions.append((a, tin, when, fi, lin))
     if r['status'] == 'timeout' or (isinstance(r['status'], int) and r['status'] < 0):
         viol.append(('no-result:%s' % ('timeout' if r['status'] == 'timeout' else 'signal'), 'ledger gives no result on a time-clock file',
                      'status %s' % (r['status'],), 'a report or an error message'))
         return viol, notes
     failed = r['status'] != 0 or bool(r['errs']) or r['close'] is not None
     if first_error:
-        ln, what = first_error
-        kind = what.split()[0] + '-' + what.split()[1]
+        f, ln, what = first_error
         if not failed:
-            viol.append(('error-accepted:' + what.replace(' ', '-'), 'line %d is a %s but ledger reports success' % (ln, what),
+            viol.append(('error-accepted:' + what.replace(' ', '-'), '%s line %d is a %s but ledger reports success' % (f, ln, what),
                          'status 0, %d rows' % len(r['rows']), 'an error'))
-        elif ln not in [l for l, _ in r['errs']]:
-            viol.append(('error-elsewhere:' + what.replace(' ', '-'), 'line %d is a %s but the error is reported for other lines' % (ln, what),
-                         str(r['errs']), 'an error at line %d' % ln))
+        elif (f, ln) not in [(x, y) for x, y, _ in r['errs']]:
+            viol.append(('error-elsewhere:' + what.replace(' ', '-'), '%s line %d is a %s but the error is reported for other lines' % (f, ln, what),
+                         str(r['errs']), 'an error at %s line %d' % (f, ln)))
         return viol, notes
-    now = EPOCH + timedelta(seconds=case['now'])
-    still = {a: v for a, v in opened.items()}
+    now = EPOCH + timedelta(seconds=now_s)
     if failed:
-        if r['errs'] or not any(tin > now for tin, _ in still.values()):
-            viol.append(('error-spurious', 'no line is a check-out without check-in, a second check-in or an early check-out, but ledger fails',
-                         '%s close=%s' % (r['errs'], r['close']), 'success'))
+        ev_lines = {(t[1], t[2]) for t in toks if t[0] == 'ev'}
+        at_lines = [x for x in r['errs'] if (x[0], x[1]) in ev_lines]
+        if not at_lines and (has_year or any(tin > now for _, tin, _, _ in still)):
+            return viol, notes        # sessions left open that begin after the closing time: not the statement's subject
+        viol.append(('error-spurious', 'no line is a check-out without check-in, a second check-in or an early check-out, but ledger fails',
+                     '%s close=%s' % (r['errs'], r['close']), 'success'))
         return viol, notes
     rows = r['rows']
     if any('bad' in w or w['secs'] is None for w in rows):
@@ -370,17 +632,17 @@ def oracle(case, at, r, db):
         return viol, notes
     by_line = {}
     for w in rows:
-        by_line.setdefault(int(w['line']), []).append(w)
-    for a, tin, tout, lin in sessions:
-        mine = by_line.get(lin, [])
+        by_line.setdefault((w['file'], int(w['line'])), []).append(w)
+    for a, tin, tout, fi, lin in sessions:
+        mine = by_line.get((fi, lin), [])
         whole = int((tout - tin).total_seconds())
         tag = 'daybreak' if db else 'session'
         if any(w['acct'] != a for w in mine):
-            viol.append((tag + ':account', 'session of line %d posts to another account' % lin, str([w['acct'] for w in mine]), a))
+            viol.append((tag + ':account', 'session of %s line %d posts to another account' % (fi, lin), str(sorted({w['acct'] for w in mine})), a))
             continue
         if not db:
             if len(mine) != 1:
-                viol.append(('session:count', 'session of line %d (%s) has %d postings' % (lin, a, len(mine)), len(mine), 1))
+                viol.append(('session:count', 'session of %s line %d (%s) has %d postings' % (fi, lin, a, len(mine)), len(mine), 1))
             elif mine[0]['secs'] != whole:
                 viol.append(('session:seconds', 'session %s .. %s' % (tin, tout), mine[0]['secs'], whole))
             elif mine[0]['date'] != tin.strftime('%Y/%m/%d'):
@@ -403,60 +665,119 @@ def oracle(case, at, r, db):
         if sum(w['secs'] for w in mine) != whole:
             viol.append(('daybreak:sum', 'pieces of session %s .. %s sum to %d' % (tin, tout, sum(w['secs'] for w in mine)),
                          sum(w['secs'] for w in mine), whole))
-        elif len(mine) != len(got):
+        elif len(mine) != len(got) and not (whole == 0 and len(mine) == 1):
             viol.append(('daybreak:two-pieces-one-day', 'session %s .. %s' % (tin, tout), str(sorted((w['date'], w['secs']) for w in mine)), str(want)))
         elif got != want:
             viol.append(('daybreak:pieces', 'session %s .. %s' % (tin, tout), str(sorted(got.items())), str(sorted(want.items()))))
         if whole == 0 and not mine:
             notes.append('a zero-second session yields no posting under --day-break (one 0s posting without it)')
-    # an account's reported time is the sum of its sessions (still-open ones end at --now)
+    # the time reported for a full account is the sum of its sessions (still-open ones end at --now;
+    # with a year directive in the file, at the end instant ledger shows for them)
     totals = {}
     for w in rows:
         totals[w['acct']] = totals.get(w['acct'], 0) + w['secs']
     want = {}
-    for a, tin, tout, _ in sessions:
+    for a, tin, tout, _, _ in sessions:
         want[a] = want.get(a, 0) + int((tout - tin).total_seconds())
-    for a, (tin, _) in still.items():
-        want[a] = want.get(a, 0) + int((now - tin).total_seconds())
-    for a in set(totals) | set(want):
+    for a, tin, fi, lin in still:
+        end = now
+        if has_year:
+            mine = by_line.get((fi, lin), [])
+            ends = [datetime.strptime(w['cout'], '%Y/%m/%d %H:%M:%S') for w in mine]
+            end = max(ends) if ends else tin
+        if any(w['acct'] != a for w in by_line.get((fi, lin), [])):
+            viol.append(('open-session:account', 'the session left open at %s line %d posts to another account' % (fi, lin),
+                         str(sorted({w['acct'] for w in by_line.get((fi, lin), [])})), a))
+        want[a] = want.get(a, 0) + int((end - tin).total_seconds())
+    for a in sorted(set(totals) | set(want)):
         if totals.get(a, 0) != want.get(a, 0):
             viol.append(('account-total', 'time reported for %s' % a, totals.get(a, 0), want.get(a, 0)))
-    known = {lin for _, _, _, lin in sessions} | {lin for _, lin in still.values()}
-    for ln in by_line:
-        if ln not in known:
-            viol.append(('posting-without-session', 'a posting is attributed to line %d, which opens no session' % ln, str(by_line[ln])[:200], 'none'))
+    known = {(fi, lin) for _, _, _, fi, lin in sessions} | {(fi, lin) for _, _, fi, lin in still}
+    for key in by_line:
+        if key not in known:
+            viol.append(('posting-without-session', 'a posting is attributed to %s line %d, which opens no session' % key, str(by_line[key])[:200], 'none'))
     return viol, notes
 
 
 # ---- the run ---------------------------------------------------------------------------------------
+def write_files(ctx, files):
+    for name, text in files.items():
+        open(ctx.path(name), 'w').write(text)
+
+
 def judge(ctx, case, db):
-    text, at = render(case)
-    path = ctx.path('shrink.dat')
-    open(path, 'w').write(text)
-    r = run_impl(path, case['now'], db)
-    return oracle(case, at, r, db)[0], text
+    files, main = render(case)
+    write_files(ctx, files)
+    r = run_impl(ctx.path(main), case['now'], db, case.get('master'))
+    return oracle(files, main, case.get('master'), case['now'], r, db)[0], files
+
+
+def drop_lines(lines, lo, width):
+    """the line records without the window [lo, lo+width) of the flattened (parent and children) list"""
+    pos = [0]
+
+    def go(ls):
+        out = []
+        for l in ls:
+            here = pos[0]
+            pos[0] += 1
+            keep = not (lo <= here < lo + width)
+            if l['k'] == 'include':
+                child = go(l['child'])
+                if keep:
+                    out.append(dict(l, child=child))
+            elif keep:
+                out.append(l)
+        return out
+    res = go(lines)
+    return res, pos[0]
 
 
 def shrink(ctx, case, db, key):
-    """drop events greedily while the oracle still reports `key`"""
-    cur = dict(events=list(case['events']), now=case['now'])
+    """drop windows of lines greedily while the oracle still reports `key`"""
+    cur = dict(case)
     for width in (16, 8, 4, 2, 1):
         i = 0
-        while i < len(cur['events']) and len(cur['events']) > 1:
-            cand = dict(events=cur['events'][:i] + cur['events'][i + width:], now=cur['now'])
-            if cand['events'] and any(v[0] == key for v in judge(ctx, cand, db)[0]):
+        while True:
+            cand_lines, total = drop_lines(cur['lines'], i, width)
+            if i >= total:
+                break
+            cand = dict(cur, lines=cand_lines)
+            if cand_lines and any(v[0] == key for v in judge(ctx, cand, db)[0]):
                 cur = cand
             else:
                 i += 1
     return cur
 
 
-def features(case, model_line):
+def features(case, insts, model_line):
     f = set()
-    ev = case['events']
-    if any(e['kind'] == 'o' and e['acct'] is None for e in ev):
+    evs = [l['e'] for i in [case['lines']] for l in i if l['k'] == 'ev']
+    kinds = set()
+
+    def scan(ls, depth):
+        for l in ls:
+            kinds.add(l['k'])
+            if l['k'] == 'include':
+                kinds.add('child-blocks' if any(x['k'] == 'apply-account' for x in l['child']) else 'child-plain')
+                scan(l['child'], depth + 1)
+    scan(case['lines'], 0)
+    for k in sorted(kinds & {'apply-account', 'apply-tag', 'apply-year', 'year', 'alias', 'include'}):
+        f.add('directive:' + k)
+    if case.get('master'):
+        f.add('directive:--master-account')
+    # a session whose check-in and check-out are spelled differently (one inside a block, one outside)
+    spelled = {}
+    for e in evs:
+        if e['acct'] is not None and e.get('written') is not None:
+            spelled.setdefault(e['acct'], set()).add((e['kind'], e['written']))
+    if any(len({w for _, w in v}) > 1 and len({k for k, _ in v}) > 1 for v in spelled.values()):
+        f.add('same-account-spelled-two-ways')
+    if any(e['kind'] == 'i' and e.get('written') is not None and e['written'] != e['acct'] for e in evs):
+        f.add('check-in-inside-block')
+    if any(e['kind'] == 'o' and e['acct'] is None for e in evs):
         f.add('anon-out')
-    if any(e['kind'] == 'i' and e['acct'] is None for e in ev):
+    if any(e['kind'] == 'i' and e['acct'] is None for e in evs):
         f.add('anon-in')
     if model_line.startswith('R'):
         rows = [x.split('|') for x in model_line[2:].split(';')] if len(model_line) > 2 else []
@@ -473,76 +794,142 @@ def features(case, model_line):
     return f
 
 
+def dress(rng, case, plain=False):
+    """give a case (events, now) its directives: blocks, noise, master account, included files"""
+    k = rng.random()
+    fancy = 0 if (plain or k < 0.35) else (1 if k < 0.7 else 2)
+    children = []
+    if fancy and rng.random() < 0.25:
+        for _ in range(rng.choice([1, 1, 2])):
+            sub = gen_case(rng, malformed=('any' if rng.random() < 0.15 else None), small=True)
+            cf = rng.choice([0, 1, 1, 2])
+            children.append((rng.randrange(len(case['events']) + 1), lay_out(rng, sub['events'], cf)))
+    yeardir = None
+    if fancy >= 2 and rng.random() < 0.2:
+        yeardir = rng.choice([2019, 2031, 2056, 1999])
+    case['lines'] = lay_out(rng, case['events'], fancy, children, yeardir)
+    case['master'] = rng.choice(MASTERS) if (not plain and rng.random() < 0.2) else None
+    return case
+
+
+def gen_blocks_directed(rng):
+    """time-clock lines directly inside `apply account` blocks: one session, interleaved sessions, a session
+    checked in inside a block and out outside it (and the reverse), nested blocks, an included file"""
+    base = secs(rng.choice(ANCHORS)) // DAY * DAY
+    E = lambda kind, t, acct, desc='', cap=False: dict(kind=kind, t=t, cap=cap, acct=acct, desc=desc)
+    L = lambda e, w: dict(k='ev', e=dict(e, written=w))
+    A = lambda a: dict(k='apply-account', arg=a, text='apply account ' + a)
+    END = dict(k='end', text='end apply account')
+    k = rng.randrange(6)
+    if k == 0:      # one session inside a block
+        lines = [A('Proj'), L(E('i', base + 3600, 'Proj:Work:A', 'p'), 'Work:A'), L(E('o', base + 9000, 'Proj:Work:A'), 'Work:A'), END]
+    elif k == 1:    # two interleaved sessions inside a block, one crossing midnight
+        lines = [A('Proj'), L(E('i', base + 100, 'Proj:Work:A'), 'Work:A'), L(E('i', base + 200, 'Proj:Work:B'), 'Work:B'),
+                 L(E('o', base + 5000, 'Proj:Work:A'), 'Work:A'), L(E('o', base + DAY + 900, 'Proj:Work:B'), 'Work:B'), END]
+    elif k == 2:    # checked in inside the block, out after it with the full name; two sessions open
+        lines = [A('Proj'), L(E('i', base + 100, 'Proj:Work:A'), 'Work:A'), L(E('i', base + 200, 'Proj:Home'), 'Home'), END,
+                 L(E('o', base + 5000, 'Proj:Work:A'), 'Proj:Work:A'), L(E('o', base + 6000, 'Proj:Home'), 'Proj:Home')]
+    elif k == 3:    # checked in outside with the full name, out inside nested blocks
+        lines = [L(E('i', base + 100, 'Proj:Deep:Gamma', 'g'), 'Proj:Deep:Gamma'), L(E('i', base + 150, 'Home'), 'Home'), A('Proj'), A('Deep'),
+                 L(E('o', base + DAY, 'Proj:Deep:Gamma'), 'Gamma'), END, END, L(E('o', base + DAY + 5, 'Home'), 'Home')]
+    elif k == 4:    # the same spelling inside and outside a block names two accounts
+        lines = [L(E('i', base + 100, 'Work:A'), 'Work:A'), A('Proj'), L(E('i', base + 200, 'Proj:Work:A'), 'Work:A'),
+                 L(E('o', base + 300, 'Proj:Work:A'), 'Work:A'), END, L(E('o', base + 400, 'Work:A'), 'Work:A')]
+    else:           # an included file with clock lines, included from inside a block; two sessions open in it
+        child = [L(E('i', base + 100, 'Work:A'), 'Work:A'), L(E('i', base + 200, 'Home'), 'Home'), L(E('o', base + 300, 'Work:A'), 'Work:A')]
+        lines = [L(E('i', base + 50, 'Work:B'), 'Work:B'), A('Proj'), dict(k='include', child=child), END, L(E('o', base + 500, 'Work:B'), 'Work:B')]
+    evs = [l['e'] for l in lines if l['k'] == 'ev']
+    now = (base // DAY + 3) * DAY
+    return dict(events=evs, now=now, lines=lines, master=rng.choice([None, None, 'Top']))
+
+
 def run(ctx, n_override=None):
     rng = ctx.rng
     res = lib.Result()
     res.rule = ('time-clock files of 1-60 i/o/I/O events over 1-4 accounts (gaps of seconds to days, aimed at midnights, month ends, '
-                '29 February; interleaved sessions; check-outs with and without account; sessions left open; every malformed kind), each '
-                'run with and without --day-break; non-trivial = the file closes at least one session or contains an erroneous line; '
-                'distinct by file text, --now and the day-break flag')
-    n = n_override or ctx.scale(1000, 10000)
+                '29 February; interleaved sessions; check-outs with and without account; sessions left open; every malformed kind), '
+                'bare or wrapped in directives (apply account blocks, also nested and around only some of the lines, --master-account, '
+                'included files with clock lines, apply tag / apply year / year / alias), each run with and without --day-break; '
+                'non-trivial = the file contains a check-out line; distinct by the text of all files, --now, --master-account and the day-break flag')
+    n = n_override or ctx.scale(800, 5000)
     cases = []
     for i in range(n):
         k = rng.random()
-        if k < 0.12:
-            cases.append(('d', gen_directed(rng)))
+        if k < 0.10:
+            cases.append(('d', dress(rng, gen_directed(rng), plain=rng.random() < 0.6)))
+        elif k < 0.16:
+            cases.append(('b', gen_blocks_directed(rng)))
         elif k < 0.62:
-            cases.append(('v', gen_case(rng)))
+            cases.append(('v', dress(rng, gen_case(rng))))
         else:
-            cases.append(('m', gen_case(rng, malformed=rng.choice(['double', 'out-none', 'earlier', 'mismatch', 'anon-multi', 'anon-multi', 'any']))))
+            cases.append(('m', dress(rng, gen_case(rng, malformed=rng.choice(['double', 'out-none', 'earlier', 'mismatch', 'anon-multi', 'anon-multi', 'any'])))))
     prepared = []
     model_in = []
     for i, (tag, case) in enumerate(cases):
-        text, at = render(case)
-        evs = to_model(case)
+        files, main = render(case)
+        insts = resolve(case)
         for db in (0, 1):
-            model_in.append(lib.sx(['case', '%s%d-%d' % (tag, i, db), db, case['now'], [list(e) for e in evs]]))
-        prepared.append((tag, case, text, at))
+            for inst in insts:
+                model_in.append(lib.sx(['case', '%s%d-%d-%s' % (tag, i, db, inst['id']), db, inst['now'], [list(e) for e in inst['evs']]]))
+        prepared.append((tag, case, files, main, insts))
     model_out = lib.run_model('C20', model_in)
     noted = {}
     hangs = 0
     shrunk = set()
-    for i, (tag, case, text, at) in enumerate(prepared):
+    mpos = 0
+    for i, (tag, case, files, main, insts) in enumerate(prepared):
         if hangs >= 3:
             res.notes.append('stopped after 3 runs that did not terminate within 10 s')
             break
-        path = ctx.path('tl.dat')
-        open(path, 'w').write(text)
+        write_files(ctx, files)
+        text = ''.join('== %s ==\n%s' % (f, files[f]) for f in sorted(files)) if len(files) > 1 else files[main]
+        if any(l['k'] == 'alias' for l in case['lines']):
+            noted['an alias directive is not applied to the account named on a time-clock line (F110, observation)'] = \
+                noted.get('an alias directive is not applied to the account named on a time-clock line (F110, observation)', 0) + 1
+        if any(i['now'] != case['now'] for i in insts):
+            k = 'a year / apply year directive in force at the end of a file replaces --now as the time at which its open sessions are closed (F111, observation)'
+            noted[k] = noted.get(k, 0) + 1
         for db in (0, 1):
-            r = run_impl(path, case['now'], db)
+            outs = []
+            for inst in insts:
+                ml = model_out[mpos]
+                mpos += 1
+                outs.append(ml.split(' ', 1)[1] if ' ' in ml else ml)
+            r = run_impl(ctx.path(main), case['now'], db, case.get('master'))
             if r['status'] == 'timeout':
                 hangs += 1
-            ri = impl_canon(r, at)
-            ml = model_out[2 * i + db]
-            rm = ml.split(' ', 1)[1] if ' ' in ml else ml
+            ri = impl_canon(r, insts)
+            rm = expected(insts, outs)
             res.evaluations += 1
             res.traces += 1
-            res.count('kind:' + {'d': 'directed', 'v': 'valid', 'm': 'malformed-stream'}[tag])
-            res.count('events:%s' % ('1-2' if len(case['events']) < 3 else '3-10' if len(case['events']) <= 10 else '11-30' if len(case['events']) <= 30 else '31-60'))
-            for f in features(case, rm):
+            nev = sum(len(x['evs']) for x in insts)
+            res.count('kind:' + {'d': 'directed', 'b': 'directed-blocks', 'v': 'valid', 'm': 'malformed-stream'}[tag])
+            res.count('events:%s' % ('1-2' if nev < 3 else '3-10' if nev <= 10 else '11-30' if nev <= 30 else '31+'))
+            for f in features(case, insts, rm):
                 res.count(f)
-            canon = '%s|%d|%d' % (text, case['now'], db)
-            if any(e['kind'] == 'o' for e in case['events']):
+            canon = '%s|%d|%s|%d' % (text, case['now'], case.get('master'), db)
+            if any(e[0] == 'o' for x in insts for e in x['evs']):
                 res.nontrivial.add(canon)
-            if len(res.samples) < 4 and 2 <= len(case['events']) <= 6 and (db or len(res.samples) % 2 == 0):
-                res.samples.append(dict(journal=text, now=case['now'], day_break=bool(db), impl=ri, model=rm))
+            if len(res.samples) < 5 and 2 <= nev <= 6 and (db or len(res.samples) % 2 == 0) and (len(res.samples) < 2 or len(case['lines']) > nev):
+                res.samples.append(dict(journal=text, now=case['now'], master=case.get('master'), day_break=bool(db), impl=ri, model=rm))
             if ri != rm:
-                res.disagreements.append(dict(name='C20/register', case=dict(journal=text, now=case['now'], day_break=bool(db)), impl=ri[:600], model=rm[:600]))
-            viol, notes = oracle(case, at, r, db)
+                res.disagreements.append(dict(name='C20/register', case=dict(files=files, main=main, now=case['now'], master=case.get('master'), day_break=bool(db)),
+                                              impl=ri[:600], model=rm[:600]))
+            viol, notes = oracle(files, main, case.get('master'), case['now'], r, db)
             for nt in notes:
                 noted[nt] = noted.get(nt, 0) + 1
             for key, desc, obs, req in viol:
-                jtext = text
+                jfiles = files
                 if key not in shrunk and not key.startswith('no-result'):
                     shrunk.add(key)
                     small = shrink(ctx, case, db, key)
-                    vs, jtext = judge(ctx, small, db)
+                    vs, sfiles = judge(ctx, small, db)
                     hit = [v for v in vs if v[0] == key]
                     if hit:
                         _, desc, obs, req = hit[0]
-                    else:
-                        jtext = text
-                res.violations.append(dict(key=key, desc=desc, case=dict(journal=jtext, now=case['now'], day_break=bool(db)),
+                        jfiles = sfiles
+                    write_files(ctx, files)
+                res.violations.append(dict(key=key, desc=desc, case=dict(files=jfiles, main=main, now=case['now'], master=case.get('master'), day_break=bool(db)),
                                            observed=str(obs), required=str(req)))
     for nt, c in sorted(noted.items()):
         res.notes.append('%s [%d runs]' % (nt, c))
@@ -562,23 +949,17 @@ def search(ctx, broken):
 def replay(ctx, obj):
     res = lib.Result()
     case = obj.get('case') or {}
-    if 'journal' in case:
-        path = ctx.path('replay.dat')
-        open(path, 'w').write(case['journal'])
-        r = run_impl(path, case['now'], 1 if case.get('day_break') else 0)
+    files = case.get('files') or ({'tl.dat': case['journal']} if 'journal' in case else None)
+    if files:
+        main = case.get('main', 'tl.dat')
+        write_files(ctx, files)
+        db = 1 if case.get('day_break') else 0
+        r = run_impl(ctx.path(main), case['now'], db, case.get('master'))
         print('replay: status=%s errors=%s close=%s' % (r['status'], r['errs'], r['close']))
         for w in r['rows']:
             print('replay: row %s' % w)
         print('replay: required %s, observed before %s' % (obj.get('required'), obj.get('observed')))
-        # re-judge with the oracle on the events read back from the text
-        evs, at = [], []
-        for ln, l in enumerate(case['journal'].split('\n'), 1):
-            m = re.match(r'([ioIO]) (\d{4}/\d\d/\d\d \d\d:\d\d:\d\d)(?: (.*?))?(?:  (.*))?$', l)
-            if m:
-                evs.append(dict(kind=m.group(1).lower(), t=secs(datetime.strptime(m.group(2), '%Y/%m/%d %H:%M:%S')), cap=m.group(1).isupper(),
-                                acct=m.group(3), desc=m.group(4) or ''))
-                at.append(ln)
-        viol, _ = oracle(dict(events=evs, now=case['now']), at, r, 1 if case.get('day_break') else 0)
+        viol, _ = oracle(files, main, case.get('master'), case['now'], r, db)
         for key, desc, obs, req in viol:
             if key == obj.get('key'):
                 res.violations.append(dict(key=key, desc=desc))
